@@ -197,7 +197,8 @@ inline int64_t instant_gen(const cctz::time_zone& tz) {
       return t;
     }
     case 4: {  // year boundaries incl. 4-digit / negative / many-digit years
-      i128 y = *rc::gen::element<int64_t>(-1000, -999, -1, 0, 1, 999, 1000, 9999, 10000, 99999, -10000, 1582, 2147485547LL, 2147485548LL, -2147481748LL, -2147481749LL, 100000000000LL, -100000000000LL);
+      i128 y = *rc::gen::element<int64_t>(-1000, -999, -1, 0, 1, 999, 1000, 9999, 10000, 99999, -10000, 1582, 2147485547LL, 2147485548LL, -2147481748LL, -2147481749LL, 100000000000LL, -100000000000LL,
+                                             2147481747LL, 2147481748LL, 2147483647LL, 2147483648LL, 2147485000LL, -2147483648LL, -2147483649LL, -2147481000LL, 4294967296LL, 4294969196LL);  // around INT_MAX, INT_MAX+-1900, 2^32
       i128 s = refcal::to_secs(refcal::Civil{y, 1, 1, 0, 0, 0}) + *rc::gen::element<int64_t>(-1, 0, 86399, -86400 * 3, 86400 * 200);
       return refcal::clamp64(s);
     }
